@@ -150,6 +150,17 @@ def _std(c, extra_assume=()):
                      'amd64: int is 64 bit'] + list(extra_assume)
 
 
+def sliding_templates(prefix, suffix, total, positions, nfree=1, filler=b'a'):
+    """a long token of `total` filler bytes in which a window of nfree free bytes slides over the given
+    positions: reaches every lane of a word-at-a-time fast path without paying for total free bytes"""
+    out = []
+    for pos in positions:
+        if pos + nfree > total:
+            continue
+        out.append([prefix + filler * pos, nfree, filler * (total - pos - nfree) + suffix])
+    return out
+
+
 def check_C07(tier, nproc=None):
     c = Check('C07', tier)
     N = 7 if tier == 'quick' else 10
@@ -163,7 +174,19 @@ def check_C07(tier, nproc=None):
     for t in ([b'{"k":[[', 1, b']]}'], [b'[[[', 1, b']]]'], [b'{"k":{"k":{"k":', 1, b'}}}'], [b'[{"a":[', 1, b']}]'], [b'[[[[', 1, b']]]]'], [b'{"a":[[[', 1, b']]]}']):
         for obj in (False, True):
             c.add(Job('vH_C07', [('tmpl', 'd', t), ('bool', obj)], weight=500, opts={'scale_depth': 3}))
-    c.bounds = {'N': N, 'depth_limit': 'nesting templates with the limit scaled to 3 (the handler machines themselves have no limit; values the handler declines are validated by the embedded skip machines)', 'handler': 'every per-call mix of "return 0" and "return exact end offset" (one nondeterministic boolean per call)'}
+    # long string members / keys with one (thorough: also two adjacent) free bytes at every offset of the first two
+    # 8-byte words: whatever chunked scanning a machine does, every lane sees every byte value
+    pos = range(0, 10) if tier == 'quick' else range(0, 18)
+    slid = []
+    for pre, suf, obj in ((b'["', b'"]', False), (b'{"k":"', b'"}', True), (b'{"', b'":0}', True)):
+        for t in sliding_templates(pre, suf, 18, pos, 1):
+            slid.append((t, obj))
+        if tier != 'quick':
+            for t in sliding_templates(pre, suf, 18, pos, 2):
+                slid.append((t, obj))
+    for t, obj in slid:
+        c.add(Job('vH_C07', [('tmpl', 'd', t), ('bool', obj)], weight=400))
+    c.bounds = {'N': N, 'sliding_window_strings': '18-byte string members, object values and keys with a free window at offsets %s' % list(pos), 'depth_limit': 'nesting templates with the limit scaled to 3 (the handler machines themselves have no limit; values the handler declines are validated by the embedded skip machines)', 'handler': 'every per-call mix of "return 0" and "return exact end offset" (one nondeterministic boolean per call)'}
     c.must_reach = ['C07.returned', 'C07.success']
     _std(c)
     c.outside = ['inputs longer than N bytes', 'more than 8 members', 'nesting beyond N']
@@ -248,10 +271,24 @@ def check_C14(tier, nproc=None):
                 for m in ([1, 4] if tier == 'quick' else [1, 2, 4]):
                     c.add(Job('vH_C14_reentrant', [('bytes', 'd', n), ('int', outer), ('int', inner), ('int', m)], weight=3 ** n))
     for n in range(4, (8 if tier == 'quick' else 9) + 1):
-        for fn in range(3):
+        for fn in range(5):
+            if fn >= 3 and n > 6:
+                continue
             c.add(Job('vH_C14', [('bytes', 'd', n), ('int', fn), ('int', 14)], weight=3 ** n, opts={'scale_depth': 3}))
-    c.bounds = {'N': N, 'N_reentrant': NR, 'depth_limit': 'skip functions with the limit scaled to 3 and a used stack of length 12', 'buffer_states': 'fresh, or a used stack of length 0/1/2/10 with arbitrary contents'}
-    c.must_reach = ['C14.compared', 'C14.reentrant-compared']
+    # two-call histories around the (scaled) depth limit: a deep or over-deep first document, through any entry point
+    for a in ([b'[[[[', 1], [b'[[[[[', 1, b']]]]]'], [b'[[[', 1, b']]]']):
+        for fnA in range(5):
+            for fnB in range(5):
+                c.add(Job('vH_C14_history', [('tmpl', 'a', a), ('bytes', 'd', 4), ('int', fnA), ('int', fnB), ('bool', False)], weight=3 ** 5, opts={'scale_depth': 3}))
+    NH = 3 if tier == 'quick' else 4
+    for fnA in range(5):
+        for fnB in range(5):
+            for alias in (True, False):
+                if not alias and tier == 'quick' and (fnA + fnB) % 2:
+                    continue
+                c.add(Job('vH_C14_history', [('bytes', 'a', NH), ('bytes', 'd', NH), ('int', fnA), ('int', fnB), ('bool', alias)], weight=3 ** (2 * NH - 1)))
+    c.bounds = {'N': N, 'N_reentrant': NR, 'two_call_histories': 'every ordered pair of the five Buffer entry points on all strings of length %d + %d, second input in its own array or refilled into the first one' % (NH, NH), 'depth_limit': 'skip functions with the limit scaled to 3 and a used stack of length 12', 'buffer_states': 'fresh, or a used stack of length 0/1/2/10 with arbitrary contents'}
+    c.must_reach = ['C14.compared', 'C14.reentrant-compared', 'C14.history-compared']
     _std(c, ['any history of calls leaves the Buffer as *some* []int; an arbitrary slice therefore covers every history (trivial induction)'])
     c.outside = ['inputs longer than N', 'stack slices longer than 10 words (the machine only reads stack[j] it wrote in the same call)']
     c.run_jobs(nproc)
@@ -375,6 +412,16 @@ TREE_TEMPLATES = [
     [b'{"', 1, b'\\', 1, b'":{"', 1, b'\\', 1, b'":1}}'],
     [b'{"a\\tb":[{"', 1, b'\\n":', 1, b'}]}'],
 ]
+# sibling containers whose sizes go up and down: size hints, pre-sized or carved backing arrays and pooled child
+# readers carry state from one sibling to the next
+SIBLING_TEMPLATES = [
+    [b'[[1,2],[3,4],[5,6],[7,8,9,1,2],[3,4,5,6,', 1, b']]'],
+    [b'[[1,2,3],[4],[5,6,7,8],[9],[1,2,3,4,', 1, b']]'],
+    [b'[[],[1,2,3,4,5,6,7,8,9],[],[1],[', 1, b']]'],
+    [b'{"a":[1,2],"b":[3,4],"c":[5,6],"d":[7,8,9,1,2],"e":[3,4,5,6,', 1, b']}'],
+    [b'[{"a":1,"b":2},{"c":3},{"d":4,"e":5,"f":6,"g":', 1, b'},{},{"h":7}]'],
+    [b'[[[1,2],[3,4]],[[5,6],[7,8,9,1]],[[', 1, b',3],[4,5,6,7,8]]]'],
+]
 DEPTH_TREE_TEMPLATES = [[b'[[],[[],[[],[[]', 1, b']]]]'], [b'{"a":{},"b":[[],{"c":[', 1, b']}]}'], [b'[[[', 1, b']]]'], [b'[[[[', 1, b']]]]'], [b'[1,[2,[3,[4', 1, b']]]]']]
 
 
@@ -396,11 +443,15 @@ def check_C03(tier, nproc=None):
         for t in TREE_TEMPLATES:
             t = [((x[1], 'hex') if isinstance(x, tuple) and x[0] == 'hexd' else x) for x in t]
             c.add(Job('vH_C03', [('tmpl', 'd', t), ('int', which)], weight=4 ** 6, opts=o))
+        for t in SIBLING_TEMPLATES:
+            if (t[0][:1] == b'[' and which != 1) or (t[0][:1] == b'{' and which != 2):
+                c.add(Job('vH_C03', [('tmpl', 'd', t), ('int', which)], weight=4 ** 6, opts=o))
         if which != 1:
             for t in DEPTH_TREE_TEMPLATES:
                 c.add(Job('vH_C03', [('tmpl', 'd', t), ('int', which)], weight=4 ** 6, opts=dict(o, scale_depth=3)))
     ncorpus = _corpus_jobs(c, 'vH_C03', [('int', 0)], opts=o, limit=(30 if tier == 'quick' else None))
     c.bounds = {'N': N, 'concrete_corpus_inputs': ncorpus, 'templates': [_tmplstr([((x[1], 'hex') if isinstance(x, tuple) and x[0] == 'hexd' else x) for x in t]) for t in TREE_TEMPLATES],
+                'sibling_size_templates': [_tmplstr(t) for t in SIBLING_TEMPLATES],
                 'depth_limit': 'templates %s with the limit scaled to 3' % [_tmplstr(t) for t in DEPTH_TREE_TEMPLATES]}
     c.must_reach = ['C03.returned', 'C03.success']
     _std(c, ['number leaves: fp.ParseJSONFloatPrefix replaced by the contract vFloatStub (literal delimited by the reference grammar, value and overflow verdict uninterpreted functions of the literal bytes); established by C04',
@@ -426,6 +477,12 @@ def check_C15(tier, nproc=None):
     for a, b in pairs:
         for w1, w2 in ([(0, 0), (1, 1), (2, 0)] if tier == 'quick' else [(0, 0), (1, 1), (2, 2), (1, 0), (2, 0), (0, 1), (0, 2)]):
             c.add(Job('vH_C15', [('tmpl', 'a', a), ('tmpl', 'b', b), ('int', w1), ('int', w2)], weight=100, opts=o))
+    # documents with sibling containers of varying sizes, before and after a small document
+    for t in SIBLING_TEMPLATES:
+        w = 2 if t[0][:1] == b'[' else 1
+        for b in ([b'[', 2, b']'], [b'{"', 1, b'":', 1, b'}']):
+            c.add(Job('vH_C15', [('tmpl', 'a', t), ('tmpl', 'b', b), ('int', 0), ('int', 0)], weight=300, opts=o))
+            c.add(Job('vH_C15', [('tmpl', 'a', b), ('tmpl', 'b', t), ('int', 0), ('int', w)], weight=300, opts=o))
     # depth accounting across calls, with the limit scaled to 3
     od = {'float_contract': True, 'scale_depth': 3}
     for a in ([b'[1, 2'], [b'{"a": tru}'], [b'[[[[1]]]]'], [b'[[1]]'], [b'[[[[', 1], [b'null'], [b' null ']):
@@ -440,6 +497,14 @@ def check_C15(tier, nproc=None):
     for a, w1 in (([b'[', 1, b',', 1, b']'], 2), ([b'{"', 1, b'":', 1, b'}'], 1), ([b'[[', 1, b'],{"a":', 1, b'}]'], 0)):
         for b, w2 in (([b'{"a":1,'], 1), ([b'[1,'], 2), ([b'{"a":[1,2'], 0)):
             for cc, w3 in (([b'[', 1, b']'], 2), ([b'{"', 1, b'":3}'], 1), ([b'[[3],{"c":', 1, b'}]'], 0)):
+                c.add(Job('vH_C15_three', [('tmpl', 'a', a), ('tmpl', 'b', b), ('tmpl', 'c', cc), ('int', w1), ('int', w2), ('int', w3)], weight=200, opts=o))
+    # a call that fails late (after it has allocated), then two successes of a fitting size: whatever the
+    # failed call left behind must not become shared between the two later results
+    for a, w1 in (([b'[1,2,3,'], 2), ([b'[[1,2,3,4,{]]'], 2), ([b'{"k":[[1,2,3,4,{]]}'], 0), ([b'{"a":1,"b":2,"c":'], 1), ([b'null'], 2), ([b'null'], 1)):
+        for b, w2 in (([b'[', 1, b',', 1, b']'], 2), ([b'{"k":[[1,2],[3,4],[5,', 1, b']]}'], 0), ([b'{"', 1, b'":1,"b":2}'], 1)):
+            for cc, w3 in (([b'[', 1, b',', 1, b']'], 2), ([b'{"k":[[1,2],[3,4],[5,', 1, b']]}'], 0), ([b'{"', 1, b'":1,"b":2}'], 1)):
+                if tier == 'quick' and w2 != w3:
+                    continue
                 c.add(Job('vH_C15_three', [('tmpl', 'a', a), ('tmpl', 'b', b), ('tmpl', 'c', cc), ('int', w1), ('int', w2), ('int', w3)], weight=200, opts=o))
     c.bounds = {'histories': 'two calls (and selected three-call sequences) on one reader; documents from %d x %d templates with symbolic bytes; all ReadValue/ReadObject/ReadArray combinations listed' % (len(A), len(B)),
                 'first_docs': [_tmplstr(t) for t in A], 'second_docs': [_tmplstr(t) for t in B]}
@@ -623,7 +688,15 @@ def check_C19(tier, nproc=None):
         c.add(Job('vH_C19', [('tmpl', 'd', t), ('int', group), ('cbytes', b'')], weight=3000, opts=o))
         if group < 5:
             c.add(Job('vH_C19', [('tmpl', 'd', t), ('int', group), ('bytes', 'm', 1)], weight=3000, opts=o))
-    c.bounds = {'N': N, 'groups': 16, 'templates': [_tmplstr([((x[1], x[0]) if isinstance(x, tuple) and isinstance(x[0], str) else x) for x in t]) + ' g%d' % g for t, g in T]}
+    # history deep -> shallow -> deep: a Buffer that was once used on a deep document stays warm for it
+    # whatever shallower documents it sees in between (a stack that is trimmed or dropped re-allocates)
+    deeps = (70,) if tier == 'quick' else (70, 300, 1100)
+    for d in deeps:
+        for group in (0, 1, 2, 3):
+            for mid in (b'[[]]', b'0', b'{"a":[]}'):
+                c.add(Job('vH_C19', [('tmpl', 'd', [b'[' * d, 1, b']' * d]), ('int', group), ('cbytes', mid)], weight=40 * d, opts=o))
+    c.bounds = {'N': N, 'groups': 16, 'templates': [_tmplstr([((x[1], x[0]) if isinstance(x, tuple) and isinstance(x[0], str) else x) for x in t]) + ' g%d' % g for t, g in T],
+                'history_deep_shallow_deep': 'arrays nested %s deep, then one of [[]] / 0 / {"a":[]} through all five Buffer entry points, then the deep document again' % (list(deeps),)}
     c.must_reach = ['C19.warmed', 'C19.success']
     _std(c, ['allocation sites: the Go compiler\'s escape analysis (go build -gcflags=-m, regenerated each run) decides which make/new/conversion/boxing/closure sites heap-allocate; append beyond capacity, make(map) and fmt calls always do; a non-escaping []byte->string conversion allocates when longer than 32 bytes',
              'warm Buffer = the same call made once before on the same document with a handler that declines every member',
